@@ -265,6 +265,7 @@ MUTANTS += [
     M("checkpoint shares the diagnostic lists", _B, "history_copy = copy.deepcopy(self.history)", "history_copy = copy.copy(self.history)\n        history_copy.sample_history = list(self.history.sample_history)", "C18ckpt"),
 ]
 NEUTRALS = [
+    __import__("aspire_sa.rules.smcloop", fromlist=["HELPER_NEUTRAL"]).HELPER_NEUTRAL,
     M("history through a local alias", _B, "self.history.beta.append(beta)", "hist = self.history\n                hist.beta.append(beta)"),
     M("appends reordered", _B, "self.history.ess.append(ess)", "pass", more=[("self.history.beta.append(beta)", "self.history.beta.append(beta)\n                self.history.ess.append(effective_sample_size(samples.log_weights(beta)))")]),
     M("flag test inverted with swapped branches", _B, "samples = self.mutate(samples, beta)\n                if store_sample_history:\n                    self.history.sample_history.append(samples)",
